@@ -1,8 +1,10 @@
 package c06
 
 import (
+	"fmt"
 	"math"
 	"math/big"
+	"math/cmplx"
 
 	"verif/internal/h"
 
@@ -78,6 +80,7 @@ type env struct {
 	ecd     *ckks.Encoder
 	eval    *ckks.Evaluator
 	encr    *rlwe.Encryptor
+	encrPk  *rlwe.Encryptor
 	decr    *rlwe.Decryptor
 	semb    float64 // max |s(zeta)| over all roots (canonical embedding of the secret)
 	eFresh  float64 // bound on |embedding| of a fresh error polynomial
@@ -172,6 +175,17 @@ func (e *env) epsFresh(scale *big.Rat, m float64) float64 {
 	return (e.eFresh+e.embHard(1))/ratFloat(scale) + e.fp(m)
 }
 
+// epsFreshPK: public-key encryption. With the auxiliary modulus the encryption of zero is (u*pk + e)/p_0 (one special
+// prime): noise (u*e_pk + e_0 + e_1*s)/p_0 plus the rounding of the division; without it the noise is not divided.
+func (e *env) epsFreshPK(scale *big.Rat, m float64) float64 {
+	g := e.embGauss()
+	noise := e.embHard(1)*g + g*(1+e.semb) // |u(zeta)| <= 2N for the ternary u
+	if len(e.spec.P) > 0 {
+		noise = noise/float64(e.spec.P[0]) + e.embHard(3)*(1+e.semb)
+	}
+	return (2*noise+e.embHard(1))/ratFloat(scale) + e.fp(m)
+}
+
 // epsEncode: error of an encoded plaintext (rounding + floating point).
 func (e *env) epsEncode(scale *big.Rat, m float64) float64 {
 	return e.embHard(1)/ratFloat(scale) + e.fp(m)
@@ -214,4 +228,80 @@ func (e *env) fits(m, eps float64, scale *big.Rat, level int) bool {
 		return false // a scale of a few bits carries no message (and is outside what the encoder is meant for)
 	}
 	return math.Log2(v)+ls+4 < e.logQ[level]
+}
+
+func cmplxAbs(z complex128) float64 { return cmplx.Abs(z) }
+
+// referenceDecode is an independent decoder: the decrypted polynomial is taken out of the NTT domain, its coefficients
+// are reconstructed by the Chinese remainder theorem in math/big, centred, and the polynomial in Y = X^(N/n') is evaluated
+// at the roots zeta^(5^j) of the canonical embedding in complex128 (real ring: c_0 + sum_k c_k 2cos(.)), then divided by
+// the recorded scale. Shares nothing with Encoder.Decode but the ring's inverse NTT.
+func (e *env) referenceDecode(pt *rlwe.Plaintext, logSlots int) ([]complex128, error) {
+	level := pt.Level()
+	rq := e.params.RingQ().AtLevel(level)
+	p := rq.NewPoly()
+	if pt.IsNTT {
+		rq.INTT(pt.Value, p)
+	} else {
+		p.CopyLvl(level, pt.Value)
+	}
+	n := 1 << logSlots
+	N := e.n
+	ci := e.spec.CI
+	terms := 2 * n // coefficients of the sub-ring polynomial
+	if ci {
+		terms = n
+	}
+	gap := N / terms
+	if gap < 1 {
+		return nil, fmt.Errorf("slot count %d too large for N=%d", n, N)
+	}
+	// CRT reconstruction
+	Q := big.NewInt(1)
+	for i := 0; i <= level; i++ {
+		Q.Mul(Q, new(big.Int).SetUint64(e.q[i]))
+	}
+	half := new(big.Int).Rsh(Q, 1)
+	basis := make([]*big.Int, level+1)
+	for i := 0; i <= level; i++ {
+		qi := new(big.Int).SetUint64(e.q[i])
+		qh := new(big.Int).Quo(Q, qi)
+		inv := new(big.Int).ModInverse(new(big.Int).Mod(qh, qi), qi)
+		basis[i] = qh.Mul(qh, inv)
+	}
+	scale, _ := pt.Scale.Value.Float64()
+	coef := make([]float64, terms)
+	for k := 0; k < terms; k++ {
+		x := new(big.Int)
+		for i := 0; i <= level; i++ {
+			x.Add(x, new(big.Int).Mul(basis[i], new(big.Int).SetUint64(p.Coeffs[i][k*gap])))
+		}
+		x.Mod(x, Q)
+		if x.Cmp(half) > 0 {
+			x.Sub(x, Q)
+		}
+		f, _ := new(big.Float).SetInt(x).Float64()
+		coef[k] = f / scale
+	}
+	m := 4 * n // order of the root of unity of the sub-ring
+	out := make([]complex128, n)
+	five := 1
+	for j := 0; j < n; j++ {
+		var re, im float64
+		if ci {
+			re = coef[0]
+			for k := 1; k < terms; k++ {
+				re += coef[k] * 2 * math.Cos(2*math.Pi*float64((five*k)%m)/float64(m))
+			}
+		} else {
+			for k := 0; k < terms; k++ {
+				a := 2 * math.Pi * float64((five*k)%m) / float64(m)
+				re += coef[k] * math.Cos(a)
+				im += coef[k] * math.Sin(a)
+			}
+		}
+		out[j] = complex(re, im)
+		five = (five * 5) % m
+	}
+	return out, nil
 }
